@@ -628,6 +628,12 @@ func vfC14GenIdString(r *vfRand, n int) string {
 		if r.Chance(15) {
 			b[r.Intn(32)] = 'g' // 32 characters, not hex
 		}
+	} else if n != 32 && r.Chance(35) {
+		// hex digits only at every other length too (sha1 / sha256 digests used as keys): only
+		// exactly 32 hex characters are decoded, everything else of that alphabet is hashed / padded
+		for i := range b {
+			b[i] = "0123456789abcdefABCDEF"[r.Intn(22)]
+		}
 	} else if r.Chance(30) {
 		for i := range b {
 			b[i] = "abcdefghijklmnopqrstuvwxyz0123456789:_-"[r.Intn(39)]
